@@ -95,7 +95,12 @@ fn try_print(fd: Fd, msg: &str) -> core::fmt::Result {
     let len = buf.len();
     let mut flushed = 0;
     loop {
-        let res = rusl::unistd::write(fd, &buf[flushed..]).map_err(|_e| core::fmt::Error)?;
+        let res = match rusl::unistd::write(fd, &buf[flushed..]) {
+            Ok(written) => written,
+            // Interrupted before anything was written, nothing is lost by trying again
+            Err(e) if e.code == Some(rusl::error::Errno::EINTR) => continue,
+            Err(_e) => return Err(core::fmt::Error),
+        };
         match res.cmp(&0) {
             core::cmp::Ordering::Less => return Err(core::fmt::Error),
             core::cmp::Ordering::Equal => return Ok(()),
